@@ -5,7 +5,7 @@
    checks (prefix length <= 32/128, trailing bits zero, one MP_REACH / MP_UNREACH
    at most, every length field fits). All theorems hold for both decoder modes
    (the RFCs' and the one mirroring the implementation's two deviations). *)
-From Coq Require Import List NArith Bool.
+From Coq Require Import List NArith Bool Permutation.
 From RV Require Import Bgp.BgpModel Bgp.BgpProofs.
 Import ListNotations.
 Local Open Scope N_scope.
@@ -146,3 +146,66 @@ Example C04_example :
           EvA F4U (MkPfx 0 []) (u_attrs u); EvA F4U (MkPfx 25 [192;0;2;128]) (u_attrs u);
           EvW F4U (MkPfx 8 [10])].
 Proof. vm_compute. repeat split; reflexivity. Qed.
+
+(* ------------------------------------------------------------------ *)
+(* The rendered form of a route's attributes ("HTTP GET <rib>/<prefix>", mqtt-out, file-out:
+   serde's JSON of the attribute map, src/payload.rs). [json_shape] is the abstract shape of
+   that array: the elements that are attributes (by type code, in order) and the ONE list
+   of communities. Every route announced by an UPDATE carries the UPDATE's attribute list
+   (C04_events_exact), so [json_shape (u_attrs u)] is what is rendered for each of them. *)
+
+(* whatever the order of the attributes in the PDU: the community list has the same members,
+   each as often, and so has the list of the other elements (RFC 4271 section 5: a receiver
+   must cope with any order) *)
+Theorem C04_json_order_irrelevant : forall l l', Permutation l l' ->
+  Permutation (json_comms l) (json_comms l') /\ Permutation (json_kinds l) (json_kinds l').
+Proof. exact json_order_irrelevant. Qed.
+Print Assumptions C04_json_order_irrelevant.
+
+(* every community of the UPDATE is in the list exactly as often as the UPDATE's community
+   attributes carry it - none lost, none repeated, none invented *)
+Theorem C04_json_communities_exactly_once : forall l c,
+  count_occ comm_eq_dec (json_comms l) c = list_sum (map (occ_in_attr c) l).
+Proof. exact json_comms_count. Qed.
+Print Assumptions C04_json_communities_exactly_once.
+
+(* octet for octet: the listed members of one attribute type, put together in list order,
+   are the values of the UPDATE's (valid) attributes of that type in PDU order; and every
+   member has the size of its type (4 / 8 / 20 / 12 octets) *)
+Theorem C04_json_communities_bytes : forall ty l,
+  concat (map snd (filter (fun c : comm => fst c =? ty) (json_comms l))) =
+  concat (map a_value (filter (is_comm_attr ty) l)).
+Proof. exact json_comms_bytes. Qed.
+Print Assumptions C04_json_communities_bytes.
+
+Theorem C04_json_member_size : forall l c, In c (json_comms l) ->
+  exists k, comm_size (fst c) = Some k /\ length (snd c) = k.
+Proof. exact json_comms_member_size. Qed.
+Print Assumptions C04_json_member_size.
+
+(* every other attribute is one element, in PDU order; MP_REACH_NLRI / MP_UNREACH_NLRI never are *)
+Theorem C04_json_other_attributes_once : forall l,
+  json_kinds l = map a_type (filter is_plain_attr l) /\ ~ In 14 (json_kinds l) /\ ~ In 15 (json_kinds l).
+Proof. exact json_kinds_spec. Qed.
+Print Assumptions C04_json_other_attributes_once.
+
+(* each attribute of the UPDATE is accounted for in exactly one of the three ways *)
+Theorem C04_json_accounting : forall l,
+  (length (json_kinds l) + count_if (fun a => match attr_comms a with Some _ => true | None => false end) l
+   + count_if is_mp l = length l)%nat.
+Proof. exact json_accounting'. Qed.
+Print Assumptions C04_json_accounting.
+
+(* through the bytes: what is rendered for the routes decoded from the encoding of a
+   well-formed UPDATE is the shape of that UPDATE's attributes *)
+Theorem C04_json_of_bytes : forall m u, wf u = true ->
+  match decode m (encode u) with Some u' => json_of_update u' | None => None end = json_of_update u.
+Proof. exact json_of_bytes. Qed.
+Print Assumptions C04_json_of_bytes.
+
+(* non-vacuity: LARGE_COMMUNITY and EXTENDED COMMUNITIES before COMMUNITIES, an MP_UNREACH_NLRI
+   in between, a COMMUNITIES attribute of 3 octets (shown as an element of its own) *)
+Example C04_json_example :
+  json_shape attrs_json_example =
+  MkShape [1; 8] [(32, [0;0;253;232; 0;0;0;1; 0;0;0;2]); (16, [0;2;253;232;0;0;0;100]); (8, [253;232;0;1]); (8, [253;232;0;2])].
+Proof. exact json_example_ok. Qed.
